@@ -83,3 +83,61 @@ def repeat_triples(seed: int, n: int, n_sub: int) -> list[tuple[dict, dict, dict
             c["name"] = a["name"] + "_subprocess"
         out.append((a, b, c))
     return out
+
+
+def look_spec(r: random.Random, i: int) -> dict:
+    """configurations in which demes rest and come back (hibernation, short-lived children, several levels): where an
+    accessor that caches or mutates would make later answers depend on when the tree was looked at"""
+    nlevels = r.choice([2, 2, 3, 3])
+    root = {"engine": r.choice(["SEA", "DE", "SHADE", "SEAX", "ADAPT"]), "pop": r.choice([8, 10, 12]), "gens": r.choice([1, 2]),
+            "lsc": {"kind": "DontStop"}}
+    if root["engine"] in ("SEA", "SEAX", "ADAPT"):
+        root["k_elites"] = 1
+        if root["engine"] == "SEAX":
+            root["p_crossover"] = 0.7
+        if root["engine"] == "ADAPT":
+            root["mstep"] = 0.02
+    levels = [root]
+    for d in range(1, nlevels):
+        e = r.choice(["CMA", "SEA", "DE", "CMA", "LOCAL"] if d == nlevels - 1 else ["SEA", "DE", "SHADE"])
+        lv = {"engine": e, "lsc": {"kind": "MetaepochLimit", "n": r.choice([1, 2, 2, 3])}}
+        if e in ("SEA", "DE", "SHADE"):
+            lv.update(pop=r.choice([5, 6, 8]), gens=r.choice([1, 2]))
+            if e == "SEA":
+                lv["k_elites"] = 1
+            if e == "SHADE":
+                lv["mem"] = 2
+        elif e == "CMA":
+            lv["gens"] = r.choice([1, 2, 3])
+        else:
+            lv["lsc"] = {"kind": "DontStop"}
+        levels.append(lv)
+    limit = r.choice([1, 1, 2])
+    sprout = r.choice([
+        {"kind": "simple", "far": r.choice([0.02, 0.1, 0.3]), "limit": limit},
+        {"kind": "nbc", "gen": r.choice([1.0, 2.0]), "trunc": r.choice([0.7, 1.0]), "fil": r.choice([0.5, 2.0]), "limit": limit},
+    ])
+    return {"name": f"look{i}", "seed": r.randrange(1, 10 ** 6), "dim": r.choice([2, 3]), "box": r.choice(["sym", "asym", "unit"]),
+            "fn": r.choice(["sphere", "multi", "funnels", "funnels", "offset", "plateau"]), "maximize": r.random() < 0.3,
+            "levels": levels, "hibernation": r.random() < 0.8,
+            "gsc": {"kind": "MetaepochLimit", "n": r.choice([8, 10, 12, 14])}, "sprout": sprout, "max_consults": 900}
+
+
+LOOK_SCHEDULES = [[2, 0], [2, 1], [3, 0], [4, 3]]
+
+
+def look_groups(seed: int, n: int) -> list[tuple[dict, list[dict]]]:
+    """(dense run, sparse runs): the same seeded configuration looked at after every metaepoch / only now and then"""
+    r = random.Random(seed * 17 + 3)
+    out = []
+    for i in range(n):
+        a = look_spec(r, i)
+        a["look"] = "all"
+        bs = []
+        for sch in LOOK_SCHEDULES:
+            b = copy.deepcopy(a)
+            b["look"] = sch
+            b["name"] = a["name"] + f"_every{sch[0]}p{sch[1]}"
+            bs.append(b)
+        out.append((a, bs))
+    return out
